@@ -37,8 +37,15 @@ pl_run(Params *p)
 		sim_quiesce(3000000);
 		// REP takes it if it is there
 		nng_msg *m  = NULL;
+		uint64_t st0 = sim_stall_total_ns();
 		int      rd = simnet_poll_in(rfd);
 		int      rv = nng_recvmsg(rep, &m, NNG_FLAG_NONBLOCK);
+		if (sim_stall_total_ns() != st0) {
+			// stalled inside the call for longer than the quiescence horizon, perhaps: things that were due later
+			// did happen between the poll and the call's effect - the premise "quiescent" is gone, nothing is judged
+			sim_probe("c15_stalled_inside_call");
+			rd = -1;
+		}
 		sim_event("round %d: recv fd=%d -> %d", r, rd, rv);
 		if (rd == 1 && rv == NNG_EAGAIN)
 			VIOL("fd_readable_but_eagain", "REP receive descriptor readable, non-blocking receive returned NNG_EAGAIN");
@@ -49,9 +56,14 @@ pl_run(Params *p)
 		nng_msg_free(m);
 		sim_quiesce(3000000);
 		// reply: the descriptor and the non-blocking send must agree
+		uint64_t st1 = sim_stall_total_ns();
 		int      wr = simnet_poll_in(sfd);
 		nng_msg *a  = tag_msg((size_t) W(24, 6000), 2, 0, (uint32_t) r);
 		int      sv = nng_sendmsg(rep, a, NNG_FLAG_NONBLOCK);
+		if (sim_stall_total_ns() != st1) {
+			sim_probe("c15_stalled_inside_call");
+			wr = -1;
+		}
 		sim_event("round %d: send fd=%d -> %d", r, wr, sv);
 		if (sv != 0)
 			nng_msg_free(a);
